@@ -9,7 +9,9 @@ import (
 	"net"
 	"os"
 	"runtime"
+	"strings"
 	"sync"
+	"sync/atomic"
 	"syscall"
 	"testing/synctest"
 	"time"
@@ -103,7 +105,7 @@ func (e *s1end) SimSend(b []byte, m unixsocket.Msg) error {
 		p.cred = &c
 	}
 	e.out.inflight = append(e.out.inflight, p)
-	w.c.Event(e.name + ">send")
+	w.ev(e.name + ">send")
 	return nil
 }
 
@@ -192,7 +194,7 @@ func (e *s1end) closeLocked() error {
 	e.in.inflight, e.in.delivered = nil, nil
 	e.in.signal()
 	e.out.signal()
-	e.w.c.Event(e.name + ">close")
+	e.w.ev(e.name + ">close")
 	return nil
 }
 
@@ -293,7 +295,7 @@ func (p *s1procs) Start(r *forkexec.Runner) (int, error) {
 	p.nextPid++
 	pid := p.nextPid
 	w.mu.Unlock()
-	w.c.Event("srv:start")
+	w.ev("srv:start")
 	// the real Start prepares argv/env first (and fails or panics there on malformed lists)
 	if err := forkexec.VPrepareExec(r.Args, r.Env); err != nil {
 		return 0, err
@@ -334,7 +336,7 @@ func (p *s1procs) Kill(pid int, sig syscall.Signal) error {
 	w := p.w
 	w.mu.Lock()
 	defer w.mu.Unlock()
-	w.c.Event("srv:kill")
+	w.ev("srv:kill")
 	found := false
 	for _, ch := range p.children {
 		if ch.reaped {
@@ -461,6 +463,7 @@ type s1world struct {
 	transportLost bool // a close fault was injected / Destroy called
 	fdSeq         int
 	curOp         int           // index of the API call in flight (set by the simulator)
+	srvQuiet      atomic.Bool   // Destroy is under way (see ev)
 	resetLag      time.Duration // the next clearing of a deadline takes effect this much later (the caller is descheduled)
 	lagSeq        int           // SimRecv entry count of the host end when resetLag was armed
 	hostSendOps   []int         // op index of every host->container message, in order
@@ -504,6 +507,17 @@ func newS1World(c *vcore.Ctx, conf *container.VServerConf) (*s1world, error) {
 	return w, nil
 }
 
+// ev records an event of the run's event log (the measure of distinct interleavings and the
+// determinism self-test's witness). Once Destroy is under way the container side is being killed
+// concurrently with the host's teardown: what it still manages to do in its last moments is ordered by
+// the Go scheduler, not by the simulator, and no oracle looks at it; it stays out of the log.
+func (w *s1world) ev(name string) {
+	if w.srvQuiet.Load() && strings.HasPrefix(name, "srv") {
+		return
+	}
+	w.c.Event(name)
+}
+
 func (w *s1world) observe(sock *unixsocket.Socket, dir, kind string, err error) {
 	end := "host"
 	if sock == w.srvSoc {
@@ -522,7 +536,7 @@ func (w *s1world) observe(sock *unixsocket.Socket, dir, kind string, err error) 
 	}
 	w.mu.Unlock()
 	if err == nil {
-		w.c.Event(end + ":" + dir + ":" + kind)
+		w.ev(end + ":" + dir + ":" + kind)
 	}
 }
 
